@@ -281,9 +281,9 @@ E1_SETS = {
     'C01': {'quick': [('l1_lalr_not_slr', 2), ('l2_nullable_la', 3), ('l3_expr_list', 3)],
             'thorough': [('l1_lalr_not_slr', 4), ('l2_nullable_la', 4), ('l3_expr_list', 4), ('l4_unproductive', 4), ('m8_eps_mid_named', 4)]},
     'C02': {'quick': [('m1_tuple_mix', 3), ('m2_named_mix', 3), ('m3_struct_chain', 3), ('m4_left_rec', 3), ('m5_right_rec_named', 3),
-                      ('m6_all_skipped', 3), ('m7_unit_payload', 2), ('m8_eps_mid_named', 3), ('m9_underscore_names', 3)],
+                      ('m6_all_skipped', 3), ('m7_unit_payload', 2), ('m8_eps_mid_named', 3), ('m9_underscore_names', 3), ('m10_prefix_terminals', 3)],
             'thorough': [('m1_tuple_mix', 4), ('m2_named_mix', 4), ('m3_struct_chain', 4), ('m4_left_rec', 5), ('m5_right_rec_named', 5),
-                         ('m6_all_skipped', 4), ('m7_unit_payload', 3), ('m8_eps_mid_named', 4), ('m9_underscore_names', 4), ('l1_lalr_not_slr', 3), ('l3_expr_list', 4)]},
+                         ('m6_all_skipped', 4), ('m7_unit_payload', 3), ('m8_eps_mid_named', 4), ('m9_underscore_names', 4), ('m10_prefix_terminals', 4), ('l1_lalr_not_slr', 3), ('l3_expr_list', 4)]},
     'C03': {'quick': [('l4_unproductive', 3), ('l5_never', 3), ('m4_left_rec', 3), ('m5_right_rec_named', 3)],
             'thorough': [('l4_unproductive', 4), ('l5_never', 4), ('m4_left_rec', 5), ('m5_right_rec_named', 5), ('m1_tuple_mix', 4), ('l2_nullable_la', 4)]},
 }
